@@ -467,6 +467,15 @@ class FakeTLSSocket(FakeSocket):
         self.raw.closed = True
         self.raw.close_calls += 1
 
+    def unwrap(self):
+        """ssl.SSLSocket.unwrap(): the TLS closing handshake. On a connection that is reset, half-closed by the peer, timed out or
+        otherwise broke in mid-conversation it raises (as the real one does); on a healthy one it hands back the raw socket."""
+        if self.closed:
+            raise OSError(errno.EBADF, "Bad file descriptor")
+        if self.dead or self.eof or self.faulted_in:
+            raise _ssl.SSLError("TLS shutdown on a broken connection")
+        return self.raw
+
 
 class FakeTLSContext:
     def __init__(self, net):
